@@ -278,12 +278,12 @@ class Replayer:
         import xarray as xr
         ds = xr.Dataset({"data": (("time", "spectral"), [[1.0]])}, coords={"time": [0], "spectral": [0]})
         inferable = "." not in k and "_" not in k and k not in ("yml",)
-        for how in ("given", "inferred"):
+        for how in ("given", "given, file name without extension", "inferred"):
             if how == "inferred" and not inferable:
                 continue
-            fname = self.tmp / (f"f.{k}" if how == "inferred" else "f.dat")
+            fname = self.tmp / (f"f.{k}" if how == "inferred" else ("f.dat" if how == "given" else "f_no_extension"))
             fname.write_text("x")
-            fmt = k if how == "given" else None
+            fmt = k if how.startswith("given") else None
             calls = []
             if self.kind == "data_io":
                 calls.append(("load_dataset", lambda: dio.load_dataset(fname, format_name=fmt)))
